@@ -40,6 +40,12 @@ impl Clone for PropertyMap {
     #[verifier::external_body]
     fn clone(&self) -> (r: Self) ensures r == *self { unimplemented!() }
 }
+/// read-only HashMap methods code may call on a property map: contract-free (their results are unconstrained)
+impl PropertyMap {
+    #[verifier::external_body] pub fn is_empty(&self) -> bool { unimplemented!() }
+    #[verifier::external_body] pub fn len(&self) -> usize { unimplemented!() }
+    #[verifier::external_body] pub fn contains_key(&self, k: &str) -> bool { unimplemented!() }
+}
 /// a label / an edge type is determined by its text
 pub uninterp spec fn label_of(t: Seq<char>) -> Label;
 pub uninterp spec fn edge_type_of(t: Seq<char>) -> EdgeType;
